@@ -368,6 +368,12 @@ func (g *c05Gen) chart(name string, depth int, malformed *string) *gChart {
 		case 2:
 			l += fmt.Sprintf("    condition: nosuch.path,%s.enabled\n", d.name)
 		}
+		if g.chance(6) {
+			// the same subchart a second time under an alias
+			deplines = append(deplines, l+fmt.Sprintf("    alias: %s-twin\n", d.name))
+		} else if g.chance(8) {
+			l += fmt.Sprintf("    alias: %s-x\n", d.name)
+		}
 		deplines = append(deplines, l)
 	}
 	if len(deplines) > 0 {
